@@ -88,6 +88,11 @@ def gen(rnd):
             while dd:
                 dirs.add(dd)
                 dd = os.path.dirname(dd)
+        if excl and rnd.random() < 0.6:
+            # another rule installs into the directory the subdir rule excludes: on a reinstall that directory already exists
+            add_file('datax/extra.txt')
+            lines.append(f"install_data('datax/extra.txt', install_dir: {q('share/tr' + ('' if strip else '/tree') + '/skipdir')})")
+            exp.append((base + '/skipdir/extra.txt', 'file', 0o644, None, ''))
         if withlink:
             exp.append((base + '/x/lnk', 'link:../../secret.key', None, tag, ''))
             exp.append((base + '/x/inner', 'link:../top.txt', None, tag, ''))
